@@ -25,6 +25,10 @@ DEF = {
     "object_object": ("Sub", "{s: {z: 1}}", {"s": {"z": 2}}, "Sub", None),
     "list_of_objects": ("[Sub!]", "[{a: 1}, {a: 2}]", [{"a": 3}], "Sub", None),
     "custom_scalar": ("Day", '"2020-01-01"', "2020-01-02", None, "date"),
+    # an explicit null entry OVERRIDES the nested field's own default; an omitted entry gets it
+    "object_null_entry": ("Sub", "{d: null, a: 1}", {"a": 9, "d": 3}, "Sub", None),
+    "list_of_objects_null_entry": ("[Sub!]", "[{d: null}, {a: 2}]", [{"a": 3, "d": 4}], "Sub", None),
+    "object_nested_default": ("Sub", "{a: 1}", {"d": 5}, "Sub", None),
 }
 NAMES = {"plain": "amount", "camel": "firstName", "keyword": "from", "reserved": "schema", "under": "_hidden"}
 MC_CFG = """SPECIFICATION Spec
@@ -47,7 +51,7 @@ def run(tier, work, replay=None):
     tlc_must_pass(res, "InputModel_MC")
     v.add_tlc(res, "InputModel exhaustive")
     fields = json.loads(out.read_text())
-    sdl = ["scalar Day", "enum Color { RED GREEN in }", "input Sub2 { z: Int }", "input Sub { a: Int c: Color l: [Int] s: Sub2 }"]
+    sdl = ["scalar Day", "enum Color { RED GREEN in }", "input Sub2 { z: Int }", "input Sub { a: Int c: Color l: [Int] s: Sub2 d: Int = 10 }"]
     qf, ops, uses = [], [], []
     for idx, f in enumerate(fields):
         typ, lit, value, vmodel, vkind = DEF[f["dflt"]]
